@@ -1,7 +1,41 @@
 (** Property C04 — WAC documents compose what the language reference says they compose.
-    Statements only; proofs are in proofs/ResolverProofs.v (see the header of each theorem). *)
-From Coq Require Import List Arith NArith.
-From WacV Require Import Str StrLit Token Lexer Names Ast Graph Resolver LangSpec ResolverProofs.
+    Statements only; the proofs are in proofs/ResolverProofs.v (names, access, tables),
+    proofs/ResolverNew.v (frames, the [new] expression), proofs/ResolverStmts.v (statements) and
+    proofs/ResolverWitness.v (vm_compute witnesses).
+
+    Model: model/Resolver.v, the statement/expression half of crates/wac-parser/src/resolution.rs over
+    the C12 AST and the graph operations of model/Graph.v.  Specification: spec/LangSpec.v, LANGUAGE.md
+    restated (binding rules per import of the instantiated package, the name rules, a reference
+    evaluation to compositions of values).  Level: proof, PARTIAL --
+
+      * type statements, inline interfaces, function types over declared types and the [targets] clause
+        are out of scope (C05 / C11): the model answers [FUnsupported];
+      * typing is the subtype oracle [u_sub]; package worlds, instance exports, interface ids come from
+        the per-library universe computed by the real implementation;
+      * the theorems are about each construct of the resolver (what a [new] binds, what an access
+        selects, which name an import/export gets, what a [let] does, which diagnostic each
+        ill-formedness class gets); the end-to-end statement "[resolve] and [LangSpec.denote] agree on
+        every document" is NOT proved -- it is what the correspondence checks on every generated program
+        (tools/props/c04.py evaluates [denote] on the implementation's own observation);
+      * the argument edges of the graph are those of [Graph.set_arg] called once per table entry
+        ([set_args]); the theorems speak about the table.
+
+    Standing hypotheses: [nofree] (the graph has no freed node or package slot: the resolver starts from
+    the empty graph and never removes anything), [scope_live] (local names denote live nodes), [NoDup] of
+    the import names of the instantiated package (they are the keys of an IndexMap).
+
+    DEVIATIONS of the implementation from the reference as written (each a flag of
+    [LangSpec.deviations]; the theorems hold for [impl_flags_c04], the [_refuted] theorems show that
+    they fail for [doc_flags]; both are replayed on the real resolver by corpus/C04/witness-src.txt):
+      - [exact_name_first]: "exactly one import/export that has a path which ends with the name ->
+        the path is used" -- the resolver uses the plain name when an import/export of exactly that
+        name exists (inferred rule 3, named-argument identifiers, access expressions);
+      - [export_spread_conflicts_error]: a spread export all of whose names are already exported is
+        rejected ([SpreadExportNoEffect]); the reference only makes an instance without exports an
+        error. *)
+From Coq Require Import String List Arith NArith.
+From WacV Require Import Str StrLit Token Lexer Semver Names Ast Graph Resolver LangSpec
+  ResolverProofs ResolverNew ResolverStmts ResolverWitness.
 Import ListNotations.
 Local Open Scope nat_scope.
 
@@ -9,8 +43,148 @@ Section C04.
   Variable u : runiverse.
   Variable self_name : str.
 
-  (** 5. A [let] only names: after [let id = e;] the graph is the graph after evaluating [e], up to
-         the debug name of [e]'s node; the scope gains exactly [id]. *)
+  (** * 1. argument binding *)
+
+  (** 1a. The NAME of an argument.  An inferred argument [id] gets the name the four rules of the
+      reference give, from the package path of the item's type ([instance_id]), the import name / the
+      accessed export name the item came from ([node_source]) and the identifier; a named argument
+      [id: e] the unique import path ending with [id], else [id]; ["s": e] exactly [s]. *)
+  Theorem arg_name_spec :
+    (forall imports id item st nm st',
+       inferred_name u imports id item st = inl (nm, st') ->
+       st' = st /\ exists nd, get_node (rs_g st) item = Some nd /\
+         nm = infer_arg_name impl_flags_c04 (map fst imports) (id_string id)
+                             (instance_id u (nitem nd)) (node_source u (rs_g st) item)) /\
+    (forall (imports : list (str * kid)) a,
+       named_name imports a = arg_name_of impl_flags_c04 (map fst imports) a).
+  Proof. split; [exact (inferred_name_spec u)|exact named_name_spec]. Qed.
+
+  (** 1b. The BINDING of every import.  After a successful [new pkg { args }]: with [t1] the table of
+      the explicit (inferred and named) arguments, [recs] the spread arguments in order and [t2] the
+      final table, every import [i] of the package is bound by the first applicable rule
+      ([LangSpec.bind_import]): the explicit argument named [i]; else the first spread whose instance
+      exports [i], through the graph's alias of that export; else nothing (an implicit import) when
+      [...] is present; and no import is missing. *)
+  Theorem arg_binding_spec pkg args st inst st' :
+    new_expr u self_name (eval_expr u self_name) pkg args st = inl (inst, st') ->
+    nofree (rs_g st) ->
+    exists id pd t1 req recs t2,
+      pkg_desc u (rs_g st') id = Some pd /\
+      (NoDup (map fst (text_items u (pd_imports pd))) ->
+        NoDup (map fst t1) /\ length t1 = length (filter is_explicit_arg args) /\
+        req = negb (existsb is_fill_arg args) /\
+        (forall pre sp post, args = pre ++ AFill sp :: post -> post = []) /\
+        map sr_id recs = spread_idents args /\
+        spreads_from u (map fst (text_items u (pd_imports pd))) t1 recs t2 /\
+        (forall i, In i (map fst (text_items u (pd_imports pd))) ->
+           match bind_import t1 (map to_src recs) (negb req) i with
+           | BExplicit x => im_get t2 i = Some x
+           | BSpread sp => exists n, im_get t2 i = Some (n, snd (sp_val sp)) /\ alias_witness u (fst (sp_val sp)) i n
+           | BImplicit => im_get t2 i = None
+           | BMissing => False
+           end)).
+  Proof.
+    intros H NF. apply (new_expr_binding u self_name (eval_expr u self_name) pkg args st inst st' H); auto.
+    apply Forall_forall. intros a _. destruct a; auto. apply mframe_eval_expr.
+  Qed.
+
+  (** * 2. spreads and fill *)
+
+  (** 2a. One spread argument [...id] applied to the table [t]: it adds exactly the expected names its
+      instance exports that are not yet in the table, in the package's import order, each bound to
+      the alias of that export with the identifier's span; and at least one. *)
+  Theorem spread_fill_spec id expected t st t' st' :
+    spread_arg u id expected t st = inl (t', st') -> nofree (rs_g st) -> NoDup expected ->
+    exists item at0 nd ex adds,
+      im_get (rs_scope st) (id_string id) = Some (item, at0) /\ get_node (rs_g st) item = Some nd /\
+      inst_exports u (nitem nd) = Some ex /\ t' = t ++ adds /\ map fst adds = spread_filter t ex expected /\
+      adds <> [] /\
+      Forall (fun p => snd (snd p) = off (id_span id) /\ alias_witness u item (fst p) (fst (snd p))) adds /\
+      nofree (rs_g st') /\ rs_scope st' = rs_scope st /\ gframe (rs_g st) (rs_g st').
+  Proof. exact (spread_arg_inl u id expected t st t' st'). Qed.
+
+  (** 2b. [...] is accepted only as the last argument (and then switches the completeness check off);
+      anywhere else it is rejected where it stands. *)
+  Theorem fill_must_be_last :
+    (forall evalf imports args t req st t' req' st',
+       pass1 u evalf imports args t req st = inl ((t', req'), st') -> NoDup (map fst t) ->
+       req' = (req && negb (existsb is_fill_arg args))%bool /\
+       (forall pre sp post, args = pre ++ AFill sp :: post -> post = [])) /\
+    (forall evalf imports sp b r t req st,
+       pass1 u evalf imports (AFill sp :: b :: r) t req st = inr (FErr (EFillArgumentNotLast (off sp)))).
+  Proof.
+    split.
+    - intros evalf imports args t req st t' req' st' H ND.
+      destruct (pass1_inl u evalf imports args t req st t' req' st' H ND) as (_ & _ & A & B). auto.
+    - exact (pass1_fill_not_last u).
+  Qed.
+
+  (** * 3. access expressions *)
+  (** [e.id] / [e["name"]] succeed exactly on an instance that has the export the reference names
+      ([access_name]: the unique export path ending with [id], else [id]; exactly ["name"]) and yield
+      the graph's alias of that export; otherwise the operand is not an instance
+      ([NotAnInstance{Access}] at the operand) or has no such export ([MissingInstanceExport] at the
+      access). *)
+  Theorem access_spec item pe parent st :
+    (forall n st', eval_postfix u item pe parent st = inl (n, st') ->
+       exists nd ex,
+         get_node (rs_g st) item = Some nd /\ inst_exports u (nitem nd) = Some ex /\
+         has_key ex (access_name pe (map fst ex)) = true /\
+         alias u (rs_g st) item (ru_intern u (access_name pe (map fst ex))) = (rs_g st', ONode n) /\
+         rs_scope st' = rs_scope st) /\
+    (forall e, eval_postfix u item pe parent st = inr (FErr e) ->
+       exists nd, get_node (rs_g st) item = Some nd /\
+         match inst_exports u (nitem nd) with
+         | None => e = ENotAnInstance OpAccess parent
+         | Some ex => has_key ex (access_name pe (map fst ex)) = false /\
+                      e = EMissingInstanceExport (access_name pe (map fst ex)) (off (postfix_span pe))
+         end).
+  Proof. split; [exact (access_spec_ok u item pe parent st)|exact (access_spec_err u item pe parent st)]. Qed.
+
+  (** * 4. import and export names *)
+  (** 4a. [export e;] exports the node of [e] under the package path of its instance type, else the
+      import name, else the accessed export name; [export e as n;] under [n]. *)
+  Theorem export_name_spec e opts st st' :
+    nofree (rs_g st) -> scope_live st ->
+    export_statement u self_name e opts st = inl (tt, st') ->
+    match opts with
+    | EONone =>
+        exists item s1 nd nm,
+          eval_expr u self_name e st = inl (item, s1) /\ get_node (rs_g s1) item = Some nd /\
+          match instance_id u (nitem nd) with Some p => Some p | None => node_source u (rs_g s1) item end = Some nm /\
+          export_ u (rs_g s1) item (ru_intern u nm) = (rs_g st', OUnit)
+    | EORename n =>
+        exists item s1,
+          eval_expr u self_name e st = inl (item, s1) /\
+          export_ u (rs_g s1) item (ru_intern u (extern_name_str n)) = (rs_g st', OUnit)
+    | EOSpread _ => True
+    end.
+  Proof. exact (export_statement_name u self_name e opts st st'). Qed.
+
+  (** 4b. [export e...;] exports every export of the instance whose name is not yet exported, under
+      its own name, as the alias of that export, in the instance's export order (at least one). *)
+  Theorem export_spread_name_spec e sp st st' :
+    nofree (rs_g st) -> scope_live st ->
+    export_statement u self_name e (EOSpread sp) st = inl (tt, st') ->
+    exists item s1 ex adds,
+      eval_expr u self_name e st = inl (item, s1) /\ is_instance_with u (rs_g s1) item ex /\
+      (NoDup (map (ru_intern u) (map fst ex)) ->
+       exports (rs_g st') = exports (rs_g s1) ++ adds /\ adds <> [] /\
+       map fst adds = map (ru_intern u) (export_filter u (rs_g s1) (map fst ex)) /\
+       Forall (fun p => exists nm, fst p = ru_intern u nm /\ alias_witness u item nm (snd p)) adds).
+  Proof. exact (export_spread_spec u self_name e sp st st'). Qed.
+
+  (** 4c. an import is made under the package path it names, else the local name; [as] renames *)
+  Theorem import_name_spec id nm t st st' :
+    import_statement u self_name id nm t st = inl (tt, st') ->
+    exists name k s1 g2 n,
+      import_name_of u st id nm t name /\
+      import_ u (rs_g s1) (ru_intern u name) (N.to_nat (ru_promote u k)) = (g2, ONode n) /\
+      register_name u id n {| rs_g := g2; rs_scope := rs_scope s1 |} = inl (tt, st').
+  Proof. exact (import_statement_name u self_name id nm t st st'). Qed.
+
+  (** * 5. A [let] only names: after [let id = e;] the graph is the graph after evaluating [e], up to
+      the debug name of [e]'s node; the scope gains exactly [id]. *)
   Theorem let_only_names id e st st' :
     let_statement u self_name id e st = inl (tt, st') ->
     exists item st1,
@@ -18,5 +192,105 @@ Section C04.
       same_but_name (rs_g st1) (rs_g st') item /\
       rs_scope st' = rs_scope st1 ++ [(id_string id, (item, off (id_span id)))].
   Proof. exact (let_only_names_proof u self_name id e st st'). Qed.
+
+  (** ... and evaluating an expression only extends the graph and leaves the scope alone *)
+  Theorem expressions_only_extend e st item st' :
+    eval_expr u self_name e st = inl (item, st') -> nofree (rs_g st) ->
+    gframe (rs_g st) (rs_g st') /\ rs_scope st' = rs_scope st.
+  Proof. exact (mframe_eval_expr u self_name e st item st'). Qed.
+
+  (** * 6. each ill-formedness class <-> its diagnostic (at the construct that detects it) *)
+  Theorem illformed_rejected :
+    (* undefined name *)
+    (forall id st, im_get (rs_scope st) (id_string id) = None <->
+                   local_item id st = inr (FErr (EUndefinedName (id_string id) (off (id_span id))))) /\
+    (* duplicate name *)
+    (forall id n st, im_get (rs_scope st) (id_string id) <> None <->
+                     register_name u id n st = inr (FErr (EDuplicateName (id_string id) (off (id_span id))))) /\
+    (* duplicate argument *)
+    (forall t nm item at_ st, has_key t nm = true <->
+                              tbl_insert t nm item at_ st = inr (FErr (EDuplicateInstantiationArg nm at_))) /\
+    (* missing argument: once the arguments are passed *)
+    (forall evalf pkg args st id s0 pd t1 req s1 t2 s2 s3 inst s4 nm a,
+       str_eqb (pn_name pkg) self_name = false ->
+       resolve_package u (pn_name pkg) (pn_version pkg) (off (pn_span pkg)) st = inl (id, s0) ->
+       pkg_desc u (rs_g s0) id = Some pd ->
+       pass1 u evalf (text_items u (pd_imports pd)) args [] true s0 = inl ((t1, req), s1) ->
+       pass2 u args (map fst (text_items u (pd_imports pd))) t1 s1 = inl (t2, s2) ->
+       gop (fun g => instantiate u g id) s2 = inl (ONode inst, s3) ->
+       set_args u inst t2 s3 = inl (tt, s4) ->
+       (new_expr u self_name evalf pkg args st = inr (FErr (EMissingInstantiationArg nm a)) <->
+        req = true /\ a = off (pn_span pkg) /\
+        exists k, find (fun p => negb (has_key t2 (fst p))) (text_items u (pd_imports pd)) = Some (nm, k))) /\
+    (* access on a non-instance *)
+    (forall item pe parent st nd, get_node (rs_g st) item = Some nd ->
+       forall a, eval_postfix u item pe parent st = inr (FErr (ENotAnInstance OpAccess a)) <->
+                 inst_exports u (nitem nd) = None /\ a = parent) /\
+    (* spread of a non-instance; ineffective spread *)
+    (forall id expected t st item at0 nd,
+       nofree (rs_g st) -> NoDup expected ->
+       im_get (rs_scope st) (id_string id) = Some (item, at0) -> get_node (rs_g st) item = Some nd ->
+       (forall a, spread_arg u id expected t st = inr (FErr (ENotAnInstance OpSpread a)) <->
+                  inst_exports u (nitem nd) = None /\ a = off (id_span id)) /\
+       (forall a, spread_arg u id expected t st = inr (FErr (ESpreadInstantiationNoMatch a)) <->
+                  exists ex, inst_exports u (nitem nd) = Some ex /\ spread_filter t ex expected = [] /\ a = off (id_span id))) /\
+    (* fill not last *)
+    (forall evalf imports sp b r t req st,
+       pass1 u evalf imports (AFill sp :: b :: r) t req st = inr (FErr (EFillArgumentNotLast (off sp)))) /\
+    (* conflicting export *)
+    (forall item nm at_ st,
+       (forall n a, im_get (rs_scope st) nm = Some (n, a) -> get_node (rs_g st) n <> None) ->
+       (export_item u item nm at_ st = inr (FErr (EDuplicateExternName XExport nm at_)) <->
+        defines st nm = false /\ alist_get N.eqb (exports (rs_g st)) (ru_intern u nm) <> None)).
+  Proof.
+    split; [exact local_item_undefined|]. split; [exact (register_name_duplicate u)|].
+    split; [exact tbl_insert_duplicate|]. split; [exact (new_expr_missing u self_name)|].
+    split; [exact (access_not_instance_iff u)|]. split; [exact (spread_arg_errors u)|].
+    split; [exact (pass1_fill_not_last u)|exact (export_item_conflict u)].
+  Qed.
 End C04.
+
+(** * The reference as written is contradicted by the faithful model (findings) *)
+
+(** 3-refuted. [p.f] where [p] exports both [f] and [x:y/f]: the reference as written selects the
+    path [x:y/f] ("exactly one export with [f] as the final component of a path"), the resolver
+    selects [f]. *)
+Theorem access_spec_doc_refuted :
+  exists (u : runiverse) (src : str),
+    exported_alias u src = Some (Some (0, ru_intern u (L"f"))) /\
+    denoted_exports doc_flags u src = Some (inl [(L"out", VAccess (VInst 0) (L"x:y/f"))]) /\
+    denoted_exports impl_flags_c04 u src = Some (inl [(L"out", VAccess (VInst 0) (L"f"))]).
+Proof.
+  exists w_universe, w_access. split; [exact w_access_model|]. split; [exact w_access_doc|exact w_access_known].
+Qed.
+
+(** 4b-refuted. A spread export all of whose names are already exported: the reference as written
+    creates no new export and makes only "no exports" an error; the resolver rejects the statement. *)
+Theorem export_spread_doc_refuted :
+  exists (u : runiverse) (src : str),
+    (exists a, resolve_error u src = Some (FErr (ESpreadExportNoEffect a))) /\
+    (exists l, denoted_exports doc_flags u src = Some (inl l)) /\
+    denoted_exports impl_flags_c04 u src = Some (inr IIneffectiveSpread).
+Proof.
+  exists w_universe, w_spread2. split; [exact w_spread2_model|]. split; [eexists; exact w_spread2_doc|exact w_spread2_known].
+Qed.
+
+(** Non-vacuity: a program with an inferred, a spread, a named and a fill argument resolves in the
+    model to the arguments the reference evaluation gives. *)
+Example four_argument_forms :
+  model_args w_universe w_args = Some [(3, [(1%N, 2); (0%N, 0)]); (4, [(1%N, 0)])].
+Proof. exact w_args_model. Qed.
+
+Print Assumptions arg_name_spec.
+Print Assumptions arg_binding_spec.
+Print Assumptions spread_fill_spec.
+Print Assumptions fill_must_be_last.
+Print Assumptions access_spec.
+Print Assumptions export_name_spec.
+Print Assumptions export_spread_name_spec.
+Print Assumptions import_name_spec.
 Print Assumptions let_only_names.
+Print Assumptions expressions_only_extend.
+Print Assumptions illformed_rejected.
+Print Assumptions access_spec_doc_refuted.
+Print Assumptions export_spread_doc_refuted.
